@@ -63,7 +63,7 @@ pub fn vector_clocks(o: &mut dyn Write, l: usize, m: u32) {
 pub fn vector_clocks_big(o: &mut dyn Write, n: usize, seed: u64) {
     let mut rng = StdRng::seed_from_u64(seed ^ 0x5eed_c20);
     let vals: [u32; 12] = [0, 0, 1, 2, 3, 127, 128, 255, 256, 65_535, 65_536, 2_147_483_646];
-    let mut gen = |rng: &mut StdRng| -> Vec<u32> {
+    let gen = |rng: &mut StdRng| -> Vec<u32> {
         let len = rng.gen_range(0..9);
         (0..len).map(|_| vals[rng.gen_range(0..vals.len())]).collect()
     };
